@@ -37,7 +37,10 @@ def gen(rng, i):
     if i % 10 == 9:
         return gen_dynamic_batch(rng, i)
     # NFunshared: no tied constants (C15 allows rejecting those), everything else allowed
-    mb, info = gm.gen_model(rng, n_subgraphs=1 if i % 5 else 2, share=0.0, name_hazard=0.1, p_unsupported=0.3)
+    # (one result exported under two output names, fused activations, dynamic batch dimensions, BATCH_MATMUL with either operand constant:
+    # all of it is converter output, none of it may make a shipped recipe raise)
+    mb, info = gm.gen_model(rng, n_subgraphs=1 if i % 5 else 2, share=0.0, name_hazard=0.1, p_unsupported=0.3, dup_output=0.15, fused_act=0.2,
+                            dynamic_batch=0.1, bmm_const_lhs=0.15)
     data = gm.random_inputs(mb, rng, n=1)
     name, rec = pl.shipped_recipes()[i % len(pl.shipped_recipes())]
     return fp.Case(mb, info, recipe=rec, data=data, desc=name)
